@@ -62,6 +62,11 @@ def gen_case(rng, k, tier):
     iota = F(0) if twist == 'no-twist' else F(rng.choice([4, -13, 7, -3]), rng.choice([5, 10, 3]))
     dz = F(rng.randint(1, 9), rng.choice([2, 3, 5]))
     R0 = F(rng.choice([239, 100, 17]), rng.choice([1, 3]))
+    if twist == 'twist' and k % 4 == 1:
+        # the field line turns more than once around the torus within the stencil: |iota*dz*kmax/R0| in (7, 18) ~ (2.2 pi, 5.7 pi)
+        twist = 'multi-turn'
+        kmax = (order + 1) // 2
+        iota = F(rng.choice([-1, 1]) * rng.randint(70, 180), 10) * R0 / (dz * kmax)
     style = rng.choice(['random', 'random', 'random', 'const', 'zindep'])
     cs = [ac.periodic_coeffs(rng, sp, 'const' if style == 'const' else 'random') for _ in range(nz)]
     if style in ('const', 'zindep'):
@@ -280,7 +285,7 @@ def gen_object_cases(chk):
         nq = rng.randint(max(7, degq + 2), 12 if big else 9)
         nz = rng.randint(max(7, order + 1), 14 if big else 10)
         cases.append({'seed': chk.seed * 41 + k, 'npts': [rng.randint(4, 6), nq, nz, 6], 'degrees': [3, degq, 3, 3], 'uniform': uni,
-                      'order': order, 'iota': [0.8, 0.0, -1.3][k % 3], 'slope': (0.05 if k % 4 == 2 else None), 'nruns': 3, 'k': k})
+                      'order': order, 'iota': [0.8, 0.0, -1.3, 4.5, -3.7][k % 5] if k % 2 else [0.8, 0.0, -1.3][k % 3], 'slope': (0.05 if k % 4 == 2 else None), 'nruns': 3, 'k': k})
     return cases
 
 
